@@ -107,6 +107,12 @@ structure RTWResult where
   /-- `Except.error` = the exception raised; `ok (testv_is_good, read_data)` -/
   out : Except Err (Bool × List (Nat × List Bytes))
 
+/-- the exception raised by the request, if any -/
+def RTWResult.err (r : RTWResult) : Option Err :=
+  match r.out with
+  | .error e => some e
+  | .ok _ => none
+
 /-- `slot_testv_and_readv_and_writev(storage_index, secrets, tw_vectors, r_vector, renew_leases)` -/
 def rtw (env : Env) (b : Bucket) (we renew cancel : Bytes) (tw : List (Nat × TW))
     (rv : List (Nat × Nat)) (renewLeases : Bool) : RTWResult :=
